@@ -356,6 +356,21 @@ class PotentialsOfRealSystems:
                     d = float(np.abs(np.asarray(scf.Vloc) - parts).max() / np.abs(parts).max())
                     if d > 1e-10:
                         bad.append(dict(cell=cname, pot=pot, atoms=atom, clause="Vloc vs the sum of the single-atom potentials", relative_deviation=d))
+                    # (e) frame: evaluating a potential changes nothing on the Atoms object; a second and third evaluation on the SAME SCF object
+                    # (potential re-assigned, parameters re-assigned) give the potential of the same charges again
+                    sf0 = np.array(np.asarray(scf.atoms.Sf), copy=True)
+                    v_first = np.array(np.asarray(scf.Vloc), copy=True)
+                    for step in ("scf.pot = pot", "scf.pot_params = {}"):
+                        if step.startswith("scf.pot ="):
+                            scf.pot = pot
+                        else:
+                            scf.pot_params = {}
+                        dsf = float(np.abs(np.asarray(scf.atoms.Sf) - sf0).max())
+                        dv = float(np.abs(np.asarray(scf.Vloc) - v_first).max() / np.abs(v_first).max())
+                        if dsf > 1e-12 or dv > 1e-10:
+                            bad.append(dict(cell=cname, pot=pot, atoms=atom, clause=f"second evaluation on the same SCF object ({step}): structure factors of the Atoms object and Vloc unchanged",
+                                            structure_factor_changed_by=dsf, relative_deviation_of_Vloc=dv))
+                            break
             # (d) the same lattice with the first two lattice vectors exchanged (a LEFT-handed set): the same potential on the same points, listed with the first
             # two grid indices exchanged; the projectors of the non-local part have the same norms
             al = a[[1, 0, 2]]
